@@ -56,6 +56,13 @@ def schema_tla(S):
 
 # ------------------------------------------------------------------- C++ ---
 
+def lvname(mname, path):
+    """name of the navigation function of a level: injective in (message, path)
+    (a plain join made msg/g_1/g_2 and msg/g_1_g_2 collide - the repository's
+    traits_test_schema has both)"""
+    return "lv_%d%s_%s" % (len(mname), mname, "_".join("%d%s" % (len(x), x) for x in path) if path else "root")
+
+
 class Gen:
     def __init__(self, S, byte="char"):
         self.S = S
@@ -120,7 +127,7 @@ class Gen:
         """nav: C++ expression (using m and ip) evaluating to this level's view"""
         L = self.out
         key = "%s:%s" % (mname, "/".join(path))
-        fn = "lv_%s_%s" % (mname, "_".join(path) if path else "root")
+        fn = lvname(mname, path)
         L.append("static auto %s(%s m, const int* ip) -> decltype(%s) { (void)ip; return %s; }" % (fn, M, nav, nav))
         L.append('VH_REG_LEVEL("%s", %s, %s);' % (key, M, fn))
         cl = lambda xs: "{" + ", ".join('"%s"' % x for x in xs) + "}"
